@@ -74,6 +74,12 @@ def Signed (valid : Sig → Key → Msg → Bool) (m : Msg) (sigs : List Sig) (k
   ∃ ps : List (Sig × Key), ps.length = n ∧ (ps.map Prod.fst).Sublist sigs ∧
     (∃ l : List Key, l.Perm (ps.map Prod.snd) ∧ l.Sublist keys) ∧ ∀ p ∈ ps, valid p.1 p.2 m = true
 
+/-- The threshold as an explicit INJECTIVE ASSIGNMENT: `n` pairs (signature position, key position); any two pairs differ
+    in the signature position AND in the key position; each pair verifies. -/
+def Assigned (valid : Sig → Key → Msg → Bool) (m : Msg) (sigs : List Sig) (keys : List Key) (n : Nat) : Prop :=
+  ∃ pairs : List (Nat × Nat), pairs.length = n ∧ pairs.Pairwise (fun a b => a.1 ≠ b.1 ∧ a.2 ≠ b.2) ∧
+    ∀ p ∈ pairs, ∃ s k, sigs[p.1]? = some s ∧ keys[p.2]? = some k ∧ valid s k m = true
+
 /-- the lock has expired -/
 def Expired (env : Env) (c : Cond) : Prop := c.locktime > 0 ∧ env.now > c.locktime
 
